@@ -569,7 +569,12 @@ def gmm_inject(cases):
             o["model"].append(("c15.isdet", dict(std=float(est.data.std()), threshold=float(est.threshold), mean=float(est.data.mean()), x=float(data[0])),
                                dict(is_det=bool(est.is_deterministic), norm=float(onp.asarray(est._data_norm)[0])), dict(case="isdet"), (1e-5, 1e-6)))
             if c.get("usable"):
-                _check_usable(o, "injected parameters", dist, replay)
+                # a delay distribution has non-negative locations (assumption of the check); injected parameter vectors can put a
+                # component below zero in the units of the data — then the sign of its 99th percentile says nothing about the estimator
+                if float(onp.min(lref)) >= 0.0:
+                    _check_usable(o, "injected parameters", dist, replay)
+                else:
+                    _cnt(o, "inject_negative_location_not_judged_as_delay")
             if len(o["samples"]) < 1:
                 o["samples"].append(dict(kind="gmm_inject", log_w=c["log_w"], pct=c["pct"], weights=w.tolist(), loc=loc.tolist(), scale=scale.tolist()))
         except Exception as ex:
